@@ -41,6 +41,9 @@ type StructRep struct {
 	// "mem" = the []byte field that IS the backing array of the reference slices;
 	// "ref" = a []byte field that aliases the backing array (represented as offset/length).
 	Fields map[string]string
+	// Only: when non-empty, exactly these fields are represented and every other field of the
+	// struct is "ignore" (for large structs of which a translated function reads a few fields).
+	Only []string
 
 	name   string
 	st     *types.Struct
@@ -104,6 +107,10 @@ func (g gty) coq() string {
 		return "(list (" + g.key.coq() + " * " + g.val.coq() + "))"
 	case "unit":
 		return "unit"
+	case "sset":
+		return "sset"
+	case "list":
+		return "(list " + g.val.coq() + ")"
 	}
 	return "?" + g.kind
 }
@@ -114,9 +121,9 @@ func (g gty) zero() string {
 		return "0"
 	case "bool":
 		return "false"
-	case "str", "map":
+	case "str", "map", "list":
 		return "[]"
-	case "bytes", "ref":
+	case "bytes", "ref", "sset":
 		return "None"
 	case "rec":
 		parts := []string{"mk_" + g.rec.name}
@@ -250,11 +257,33 @@ func (g *mgen) gtype(tp types.Type, where string) gty {
 		if b, ok := x.Elem().Underlying().(*types.Basic); ok && b.Kind() == types.Uint8 {
 			return gty{kind: "bytes"}
 		}
+		// []*T / []T with T a represented struct: list T (only len and range are translated)
+		et := x.Elem()
+		if pt, ok := et.(*types.Pointer); ok {
+			et = pt.Elem()
+		}
+		if n, ok := et.(*types.Named); ok {
+			if r, ok := g.structs[pkgTypeKey(n)]; ok {
+				e := gty{kind: "rec", rec: r}
+				return gty{kind: "list", val: &e}
+			}
+		}
+	case *types.Struct:
+		if x.NumFields() == 0 {
+			return gty{kind: "unit"}
+		}
 	case *types.Array:
 		if b, ok := x.Elem().Underlying().(*types.Basic); ok && b.Kind() == types.Uint8 {
 			return gty{kind: "str"}
 		}
 	case *types.Map:
+		if es, ok := x.Elem().Underlying().(*types.Struct); ok && es.NumFields() == 0 {
+			// map[string]struct{}: a nilable set of strings (GoSemColl.sset)
+			if k := g.gtype(x.Key(), where); k.kind == "str" {
+				return gty{kind: "sset"}
+			}
+			failf("%s: set type %v with a non-string key is outside the subset", where, tp)
+		}
 		k, v := g.gtype(x.Key(), where), g.gtype(x.Elem(), where)
 		return gty{kind: "map", key: &k, val: &v}
 	}
@@ -291,6 +320,25 @@ func (g *mgen) prepareStruct(r *StructRep) {
 	r.st = st
 	g.structs[r.Type] = r
 	seen := map[string]bool{}
+	if len(r.Only) > 0 {
+		only := map[string]bool{}
+		for _, n := range r.Only {
+			only[n] = true
+		}
+		if r.Fields == nil {
+			r.Fields = map[string]string{}
+		}
+		for i := 0; i < st.NumFields(); i++ {
+			if n := st.Field(i).Name(); !only[n] {
+				r.Fields[n] = "ignore"
+			} else {
+				delete(only, n)
+			}
+		}
+		for n := range only {
+			failf("%s has no field %s", r.Type, n)
+		}
+	}
 	for i := 0; i < st.NumFields(); i++ {
 		f := st.Field(i)
 		seen[f.Name()] = true
@@ -501,6 +549,9 @@ func (g *mgen) mutates(fi *funcInfo, which string) bool {
 				if tv, ok := info.Types[x.Fun]; ok && tv.IsType() {
 					return true
 				}
+				if isLockOp(info, x) {
+					return true
+				}
 				if id, ok := x.Fun.(*ast.Ident); ok {
 					if _, isB := info.Uses[id].(*types.Builtin); isB {
 						if id.Name == "copy" && len(x.Args) > 0 && rooted(x.Args[0]) {
@@ -602,7 +653,10 @@ type mctx struct {
 	binds  []bind
 	tmp    int
 	inLoop []string // loop-state tuple while translating a loop body (nil outside)
-	mapUse map[string]string
+	// loopRet: the loop being translated contains `return` (go_for_ret): the body yields
+	// inl state | inr result
+	loopRet bool
+	mapUse  map[string]string
 	// lastMemAssign: source text last assigned to a backing-array field ("w.buffer" -> "b")
 	lastMemAssign map[string]string
 	// varKind: local []byte variables that hold reference slices (refined from the Go type)
@@ -693,7 +747,7 @@ func isNilIdent(e ast.Expr) bool {
 func (c *mctx) exprAs(e ast.Expr, want gty) string {
 	if isNilIdent(e) {
 		switch want.kind {
-		case "bytes", "ref", "err":
+		case "bytes", "ref", "err", "sset", "list":
 			return want.zero()
 		}
 		failf("%s: nil where a %s is expected", c.pos(e), want.kind)
@@ -1042,6 +1096,18 @@ func (c *mctx) expr(e ast.Expr) string {
 			if len(x.Elts) == 0 {
 				return "[]"
 			}
+		case "unit":
+			return "tt"
+		case "sset":
+			ks := []string{}
+			for _, el := range x.Elts {
+				kv, ok := el.(*ast.KeyValueExpr)
+				if !ok {
+					failf("%s: set literal without keys", c.pos(e))
+				}
+				ks = append(ks, c.expr(kv.Key))
+			}
+			return "(sset_lit [" + strings.Join(ks, "; ") + "])"
 		case "rec":
 			vals := map[string]string{}
 			for _, el := range x.Elts {
@@ -1122,6 +1188,8 @@ func (c *mctx) binary(x *ast.BinaryExpr) string {
 				test = "(rs_isnil " + o + ")"
 			case "err":
 				test = "(" + o + " =? 0)"
+			case "sset":
+				test = "(sset_isnil " + o + ")"
 			default:
 				failf("%s: nil comparison of %s", c.pos(e), t.kind)
 			}
@@ -1271,6 +1339,10 @@ func (c *mctx) callN(x *ast.CallExpr) []string {
 					return []string{"(bs_len " + a + ")"}
 				case "ref":
 					return []string{"(rs_len " + a + ")"}
+				case "list":
+					return []string{"(zlen " + a + ")"}
+				case "sset":
+					return []string{"(sset_len " + a + ")"}
 				}
 			case "copy":
 				dt := c.tyOf(x.Args[0])
@@ -1295,6 +1367,9 @@ func (c *mctx) callN(x *ast.CallExpr) []string {
 			case "make":
 				if c.tyOf(e).kind == "map" {
 					return []string{"[]"}
+				}
+				if c.tyOf(e).kind == "sset" {
+					return []string{"(sset_lit [])"}
 				}
 			}
 			failf("%s: builtin %q is outside the subset", c.pos(e), c.src(e))
@@ -1450,6 +1525,10 @@ func (c *mctx) retTerm(vals []string) string {
 	for _, m := range c.muts {
 		parts = append(parts, m.name)
 	}
+	if c.inLoop != nil && c.loopRet {
+		// return from inside a loop body: the loop combinator stops with inr (result)
+		return "Some (inr " + tuple(parts) + ")"
+	}
 	return "Some " + tuple(parts)
 }
 
@@ -1480,7 +1559,7 @@ func (c *mctx) stmts(list []ast.Stmt, k func() string) string {
 	case *ast.BlockStmt:
 		return c.stmts(append(append([]ast.Stmt{}, x.List...), list[1:]...), k)
 	case *ast.ReturnStmt:
-		if c.inLoop != nil {
+		if c.inLoop != nil && !c.loopRet {
 			failf("%s: return inside a loop is outside the subset", c.pos(s))
 		}
 		if len(x.Results) == 0 && len(c.resTy) > 0 {
@@ -1512,6 +1591,9 @@ func (c *mctx) stmts(list []ast.Stmt, k func() string) string {
 		call, ok := x.X.(*ast.CallExpr)
 		if !ok {
 			failf("%s: unsupported statement %q", c.pos(s), c.src(s))
+		}
+		if isLockOp(c.info, call) {
+			return tail()
 		}
 		return c.withBinds(func() string {
 			c.callN(call)
@@ -1624,6 +1706,15 @@ func (c *mctx) store(lhs ast.Expr, v string) {
 			c.binds = append(c.binds, bind{pat: t, rhs: fmt.Sprintf("mem_set %s %s %s %s", mem, c.expr(ix.X), c.expr(ix.Index), v)})
 			c.binds = append(c.binds, set(t))
 			return
+		case "sset":
+			root, steps, ok := c.path(ix.X)
+			if !ok {
+				failf("%s: map %q is not a variable or field path", c.pos(lhs), c.src(ix.X))
+			}
+			t := c.fresh()
+			c.binds = append(c.binds, bind{pat: t, rhs: fmt.Sprintf("sset_add %s %s", pathGet(mIdent(root), steps), c.expr(ix.Index))})
+			c.binds = append(c.binds, bind{pat: mIdent(root), rhs: pathSet(mIdent(root), steps, t), let: true})
+			return
 		case "map":
 			root, steps, ok := c.path(ix.X)
 			if !ok {
@@ -1651,6 +1742,27 @@ func (c *mctx) store(lhs ast.Expr, v string) {
 }
 
 func (c *mctx) refValueOK(lhs ast.Expr, v string) bool { return true }
+
+func isSetIndex(c *mctx, e ast.Expr) bool {
+	ix, ok := e.(*ast.IndexExpr)
+	return ok && c.tyOf(ix.X).kind == "sset"
+}
+
+// isLockOp: Lock / Unlock / RLock / RUnlock of sync.Mutex / sync.RWMutex (also promoted through
+// an embedded mutex).  Dropped: the translation is the sequential meaning of the function.
+func isLockOp(info *types.Info, call *ast.CallExpr) bool {
+	sel, ok := call.Fun.(*ast.SelectorExpr)
+	if !ok {
+		return false
+	}
+	switch sel.Sel.Name {
+	case "Lock", "Unlock", "RLock", "RUnlock":
+	default:
+		return false
+	}
+	fn, ok := info.Uses[sel.Sel].(*types.Func)
+	return ok && fn.Pkg() != nil && fn.Pkg().Path() == "sync"
+}
 
 // noteKind records that a local []byte variable holds a reference slice.
 func (c *mctx) noteKind(lhs ast.Expr, k gty) {
@@ -1729,6 +1841,10 @@ func (c *mctx) assign(x *ast.AssignStmt, tail func() string) string {
 				c.noteKind(x.Lhs[0], c.kindOfRhs(x.Rhs[0]))
 				c.store(x.Lhs[0], c.rhsFor(x.Lhs[0], x.Rhs[0]))
 			}
+		case len(x.Rhs) == 1 && len(x.Lhs) == 2 && isSetIndex(c, x.Rhs[0]):
+			ix := x.Rhs[0].(*ast.IndexExpr)
+			c.store(x.Lhs[0], "tt")
+			c.store(x.Lhs[1], fmt.Sprintf("(sset_mem %s %s)", c.expr(ix.X), c.expr(ix.Index)))
 		case len(x.Rhs) == 1:
 			call, ok := x.Rhs[0].(*ast.CallExpr)
 			if !ok {
@@ -1865,7 +1981,7 @@ func (c *mctx) switchStmt(x *ast.SwitchStmt, rest []ast.Stmt, k func() string) s
 
 // loopState: the variables declared outside body that the body assigns or mutates, in a
 // deterministic order (order of first occurrence).
-func (c *mctx) loopState(body *ast.BlockStmt, loopVars map[types.Object]bool) []string {
+func (c *mctx) loopState(body *ast.BlockStmt, loopVars map[types.Object]bool, hasRet ...*bool) []string {
 	names := []string{}
 	seen := map[string]bool{}
 	inner := map[types.Object]bool{}
@@ -1910,9 +2026,15 @@ func (c *mctx) loopState(body *ast.BlockStmt, loopVars map[types.Object]bool) []
 		case *ast.BranchStmt:
 			failf("%s: %s inside a loop is outside the subset", c.pos(n), x.Tok)
 		case *ast.ReturnStmt:
-			failf("%s: return inside a loop is outside the subset", c.pos(n))
+			if len(hasRet) == 0 || c.inLoop != nil {
+				failf("%s: return inside this kind of loop is outside the subset", c.pos(n))
+			}
+			*hasRet[0] = true
 		case *ast.CallExpr:
 			if tv, ok := c.info.Types[x.Fun]; ok && tv.IsType() {
+				return true
+			}
+			if isLockOp(c.info, x) {
 				return true
 			}
 			if id, ok := x.Fun.(*ast.Ident); ok {
@@ -1990,17 +2112,35 @@ func (c *mctx) addMemOwner(at ast.Node, add func(*ast.Ident)) {
 	add(found)
 }
 
+// lamPatBare: the state tuple as a match pattern (no leading quote)
+func lamPatBare(names []string) string {
+	if len(names) == 0 {
+		return "_"
+	}
+	return tuple(names)
+}
+
 func lamPat(names []string) string {
+	if len(names) == 0 {
+		return "_"
+	}
 	if len(names) == 1 {
 		return names[0]
 	}
 	return "'" + tuple(names)
 }
 
-func (c *mctx) loopBody(body *ast.BlockStmt, state []string) string {
-	saved := c.inLoop
+func (c *mctx) loopBody(body *ast.BlockStmt, state []string, ret ...bool) string {
+	saved, savedRet := c.inLoop, c.loopRet
 	c.inLoop = state
-	defer func() { c.inLoop = saved }()
+	if c.inLoop == nil {
+		c.inLoop = []string{}
+	}
+	c.loopRet = len(ret) > 0 && ret[0]
+	defer func() { c.inLoop, c.loopRet = saved, savedRet }()
+	if c.loopRet {
+		return c.stmts(body.List, func() string { return "Some (inl " + tuple(state) + ")" })
+	}
 	return c.stmts(body.List, func() string { return "Some " + tuple(state) })
 }
 
@@ -2034,7 +2174,8 @@ func (c *mctx) forStmt(x *ast.ForStmt, tail func() string) string {
 	if pi, ok := post.X.(*ast.Ident); !ok || c.info.Uses[pi] != c.info.Defs[iv] {
 		fail()
 	}
-	state := c.loopState(x.Body, map[types.Object]bool{c.info.Defs[iv]: true})
+	hasRet := false
+	state := c.loopState(x.Body, map[types.Object]bool{c.info.Defs[iv]: true}, &hasRet)
 	for _, n := range state {
 		cn := n
 		ast.Inspect(cond.Y, func(nd ast.Node) bool {
@@ -2043,6 +2184,16 @@ func (c *mctx) forStmt(x *ast.ForStmt, tail func() string) string {
 			}
 			return true
 		})
+	}
+	if hasRet {
+		// for i := 0; i < N; i++ { ... return r ... }  =>  go_for_ret; the raw term is spliced in
+		// through a bind whose pattern re-binds the loop state
+		bound := c.withBinds(func() string { return c.pure(cond.Y) })
+		st := mapIdent(state)
+		body := c.loopBody(x.Body, st, true)
+		after := tail()
+		return fmt.Sprintf("match go_for_ret %s (fun %s %s =>\n  %s) %s with\n  | None => None\n  | Some (inr r'ret) => Some r'ret\n  | Some (inl %s) =>\n  %s\n  end",
+			bound, mIdent(iv.Name), lamPat(st), body, tuple(st), lamPatBare(st), after)
 	}
 	if len(state) == 0 {
 		failf("%s: loop without effect on the surrounding state", c.pos(x))
@@ -2079,6 +2230,43 @@ func (c *mctx) rangeStmt(x *ast.RangeStmt, tail func() string) string {
 				}
 			}
 		}
+	}
+	if xt.kind == "list" {
+		if x.Tok != token.DEFINE {
+			failf("%s: range with = is outside the subset", c.pos(x))
+		}
+		kn, vn := "", "_"
+		lv := map[types.Object]bool{}
+		if id, ok := x.Key.(*ast.Ident); ok && id.Name != "_" {
+			kn = mIdent(id.Name)
+			lv[c.info.Defs[id]] = true
+		}
+		if id, ok := x.Value.(*ast.Ident); ok && id.Name != "_" {
+			vn = mIdent(id.Name)
+			lv[c.info.Defs[id]] = true
+		}
+		state := c.loopState(x.Body, lv)
+		if lroot := rootIdent(x.X); lroot != nil {
+			for _, n := range state {
+				if n == lroot.Name {
+					failf("%s: the slice (or its owner) is changed inside its own range loop", c.pos(x))
+				}
+			}
+		}
+		if len(state) == 0 {
+			failf("%s: loop without effect on the surrounding state", c.pos(x))
+		}
+		return c.withBinds(func() string {
+			l := c.pure(x.X)
+			st := mapIdent(state)
+			body := c.loopBody(x.Body, st)
+			if kn == "" {
+				c.binds = append(c.binds, bind{pat: tuple(st), rhs: fmt.Sprintf("go_range_list %s (fun %s %s =>\n  %s) %s", l, vn, lamPat(st), body, tuple(st))})
+			} else {
+				c.binds = append(c.binds, bind{pat: tuple(st), rhs: fmt.Sprintf("go_range_listi 0 %s (fun %s %s %s =>\n  %s) %s", l, kn, vn, lamPat(st), body, tuple(st))})
+			}
+			return tail()
+		})
 	}
 	if xt.kind != "map" {
 		failf("%s: range over a %s is outside the subset", c.pos(x), xt.kind)
@@ -2140,10 +2328,32 @@ func (g *mgen) translate(tg *MTarget, w *bytes.Buffer) {
 		varKind: map[types.Object]gty{}, resRef: map[int]bool{}, resVal: map[int]bool{}}
 	// distinct objects must have distinct names (assignment = let-shadowing of the same name)
 	byName := map[string]types.Object{}
+	// loop variables of range loops are lambda-bound in the translation: two loops that are not
+	// nested may use the same name (for _, c := range a {...}; for _, c := range b {...})
+	loopOf := map[types.Object]*ast.RangeStmt{}
+	ast.Inspect(fd, func(n ast.Node) bool {
+		if rs, ok := n.(*ast.RangeStmt); ok && rs.Tok == token.DEFINE {
+			for _, e := range []ast.Expr{rs.Key, rs.Value} {
+				if id, ok := e.(*ast.Ident); ok && id.Name != "_" {
+					if o := info.Defs[id]; o != nil {
+						loopOf[o] = rs
+					}
+				}
+			}
+		}
+		return true
+	})
+	disjointLoops := func(a, b types.Object) bool {
+		la, lb := loopOf[a], loopOf[b]
+		if la == nil || lb == nil {
+			return false
+		}
+		return la.End() <= lb.Pos() || lb.End() <= la.Pos()
+	}
 	ast.Inspect(fd, func(n ast.Node) bool {
 		if id, ok := n.(*ast.Ident); ok && id.Name != "_" {
 			if o, ok := info.Defs[id].(*types.Var); ok && !o.IsField() {
-				if old, dup := byName[id.Name]; dup && old != o {
+				if old, dup := byName[id.Name]; dup && old != o && !disjointLoops(old, o) {
 					failf("%s: two different variables are called %s in %s (the let-translation would confuse them)", t.pos(id), id.Name, tg.Func)
 				}
 				byName[id.Name] = o
